@@ -181,6 +181,9 @@ impl Report {
     pub fn get_u64(&self, key: &str) -> u64 {
         self.coverage.get(key).and_then(|v| v.as_u64()).unwrap_or(0)
     }
+    pub fn get_bool(&self, key: &str) -> bool {
+        self.coverage.get(key).and_then(|v| v.as_bool()).unwrap_or(false)
+    }
     pub fn assume(&mut self, s: &str) {
         self.assumptions.push(s.to_string());
     }
@@ -391,7 +394,11 @@ pub fn silence_panics() {
     // panics on the main thread or outside catch_unwind are machinery errors: keep them visible
     std::panic::set_hook(Box::new(|info| {
         let quiet = QUIET_PANICS.with(|q| q.get());
-        if !quiet {
+        // panics that a harness raises on purpose on threads it does not own (e.g. inside a task on
+        // an arbiter thread) carry this marker
+        let expected = info.payload().downcast_ref::<&str>().map_or(false, |s| s.contains("(expected-by-harness)"))
+            || info.payload().downcast_ref::<String>().map_or(false, |s| s.contains("(expected-by-harness)"));
+        if !quiet && !expected {
             eprintln!("MACHINERY-PANIC: {info}");
         }
     }));
